@@ -412,6 +412,8 @@ package types
 //@   let s = lo(m.table.table)
 //@   ensures[C01,C16] !m.table.big && SORTS(T, s, len(m.table.table) / 3) ==> (forall k :: 0 <= k && k < len(m.table.table) / 3 && smallTag(T, s, k) == tag && smallOff(T, s, k) <= m.table.data ==> result == m.bytes[:smallOff(T, s, k)])
 //@   ensures[C01,C16] m.table.big && SORTB(T, s, len(m.table.table) / 6) ==> (forall k :: 0 <= k && k < len(m.table.table) / 6 && bigTag(T, s, k) == tag && bigOff(T, s, k) <= m.table.data ==> result == m.bytes[:bigOff(T, s, k)])
+//@   ensures[C01,C16] !m.table.big && SORTS(T, s, len(m.table.table) / 3) && (forall k :: 0 <= k && k < len(m.table.table) / 3 ==> smallTag(T, s, k) != tag) ==> len(result) == 0
+//@   ensures[C01,C16] m.table.big && SORTB(T, s, len(m.table.table) / 6) && (forall k :: 0 <= k && k < len(m.table.table) / 6 ==> bigTag(T, s, k) != tag) ==> len(result) == 0
 
 //@ func (Message).TagAt
 //@   safety[C02]
